@@ -48,7 +48,8 @@ def build_harness(work, race=False):
 
 
 def run(cmd, timeout=None, cwd=None, env=None, check=True):
-    r = subprocess.run(cmd, cwd=cwd, env=env or GOENV, capture_output=True, text=True, timeout=timeout)
+    r = subprocess.run(cmd, cwd=cwd, env=env or dict(GOENV, **{k: v for k, v in os.environ.items() if k.startswith("PVH_")}),
+                       capture_output=True, text=True, timeout=timeout)
     if check and r.returncode != 0:
         raise Broken("command failed (%d): %s\n%s\n%s" % (r.returncode, " ".join(cmd), r.stdout[-2000:], r.stderr[-2000:]))
     return r
@@ -57,12 +58,29 @@ def run(cmd, timeout=None, cwd=None, env=None, check=True):
 STAT_RE = re.compile(r"(\d+) states generated, (\d+) distinct states found")
 
 
-def tlc(work, module, cfg, name=None, workers=1, timeout=3600, extra=(), heap="4g", simulate=None):
+def tla_literal(x):
+    """JSON value -> TLA+ literal (records need identifier keys)."""
+    if isinstance(x, bool):
+        return "TRUE" if x else "FALSE"
+    if isinstance(x, int):
+        return str(x)
+    if isinstance(x, str):
+        return '"' + x.replace("\\", "\\\\").replace('"', '\\"') + '"'
+    if isinstance(x, list):
+        return "<<" + ", ".join(tla_literal(e) for e in x) + ">>"
+    if isinstance(x, dict):
+        if not x:
+            return "<<>>"
+        return "[" + ", ".join("%s |-> %s" % (k, tla_literal(v)) for k, v in x.items()) + "]"
+    raise Broken("cannot convert %r to a TLA+ literal" % (x,))
+
+
+def tlc(work, module, cfg, name=None, workers=1, timeout=3600, extra=(), heap="4g", simulate=None, defs=""):
     """Runs TLC on `module` (a module in spec/) with the given cfg text. Returns (stdout, stats)."""
     name = name or ("R_" + module + "_" + hashlib.md5((cfg + str(extra) + str(simulate)).encode()).hexdigest()[:8])
     d = os.path.join(work, name)
     os.makedirs(d, exist_ok=True)
-    open(os.path.join(d, name + ".tla"), "w").write("---- MODULE %s ----\nEXTENDS %s\n====\n" % (name, module))
+    open(os.path.join(d, name + ".tla"), "w").write("---- MODULE %s ----\nEXTENDS %s\n%s\n====\n" % (name, module, defs))
     open(os.path.join(d, name + ".cfg"), "w").write(cfg)
     cmd = ["java", "-Xss512m", "-Xmx" + heap, "-XX:+UseParallelGC", "-DTLA-Library=" + SPEC, "-cp", JAR, "tlc2.TLC",
            "-workers", str(workers), "-metadir", os.path.join(d, "meta")]
@@ -109,7 +127,7 @@ def split_file(path, n, work, tag):
     return parts, len(lines)
 
 
-def judge(work, module, trace, env_file, open_findings=(), shards=None, tag="j", timeout=3600, extra_consts=""):
+def judge(work, module, trace, env_file, open_findings=(), shards=None, tag="j", timeout=3600, extra_consts="", defs=""):
     """Judges a trace file with the trace specification `module`. Returns (verdicts, stats)."""
     shards = shards or NCPU
     parts, total = split_file(trace, shards, work, tag)
@@ -121,7 +139,7 @@ def judge(work, module, trace, env_file, open_findings=(), shards=None, tag="j",
         i, p = i_p
         cfg = ('CONSTANTS\n  TraceFile = "%s"\n  EnvFile = "%s"\n  Env <- EnvDef\n  OpenFindings = %s\n%s'
                'SPECIFICATION Spec\nINVARIANT Finished\nCHECK_DEADLOCK FALSE\n' % (p, env_file, of, extra_consts))
-        out, st = tlc(work, module, cfg, name="%s_%s_%d" % (tag, module, i), workers=1, timeout=timeout, heap="3g")
+        out, st = tlc(work, module, cfg, name="%s_%s_%d" % (tag, module, i), workers=1, timeout=timeout, heap="3g", defs=defs)
         return out, st
 
     verdicts, gen, dist, judged = [], 0, 0, 0
